@@ -142,7 +142,9 @@ func genC19World(src *choice.Src) *World {
 		// what is at -o is not what the YAML declares (edited, truncated, a stub): the regenerate must
 		// put the declared wiring there
 		c := w.PreOut.Content
-		switch src.Draw("stalekind", 3) {
+		switch src.Draw("stalekind", 4) {
+		case 3:
+			c = "STUB-GENERATED-EARLIER" // replaced in CheckC19 by what `build --stub` writes to this path
 		case 0:
 			c = "package gontainer\n\n// edited by hand\n"
 		case 1:
@@ -233,6 +235,19 @@ func judgePeers(t Target, w *World, r *Result) *Violation {
 
 func CheckC19(t Target, src *choice.Src, st *Stats) *Violation {
 	w := genC19World(src)
+	if w.PreOut != nil && w.PreOut.Content == "STUB-GENERATED-EARLIER" {
+		// a two-step history on one path: `build --stub -o P`, then the regenerate into P
+		sw := w.Clone()
+		sw.PreOut, sw.Peers, sw.SchedSeed = nil, nil, 0
+		sw.Flags = append(sw.Flags, "--stub")
+		sr := Exec(t, sw)
+		if sr.Exit == 0 && sr.Out.Exists {
+			w.PreOut.Content = sr.Out.Data
+			w.Class = "self:after-a-stub-at-the-same-path"
+		} else {
+			w.PreOut = nil
+		}
+	}
 	faulted := src.Chance("faulted", 1, 8)
 	if faulted {
 		w.Peers, w.SchedSeed = nil, 0 // faults and concurrency are explored separately
@@ -353,7 +368,8 @@ func judgeC19(w *World, r *Result) *Violation {
 		}
 		readFault := false
 		for _, f := range r.Fired {
-			if f.OpKind == "open-r" || f.OpKind == "read" {
+			// only reads of the configuration files count: a tool may look at other files (what is at -o) and cope with not getting them
+			if (f.OpKind == "open-r" || f.OpKind == "read") && f.At < len(r.Ops) && isInput(w, r.Ops[f.At].Path) {
 				readFault = true
 			}
 		}
